@@ -180,6 +180,9 @@ where
         settings: &DefaultSettings<T>,
         iter: u32,
     ) -> bool {
+        #[cfg(clarabel_verif)]
+        crate::verif::trace::record_check(iter, self.solve_time);
+
         //  optimality or infeasibility
         // ---------------------
         self.check_convergence_full(residuals, settings);
